@@ -491,6 +491,12 @@ def _solve_closed_part(g, res):
                         if closure[ax] == "periodic":
                             U.set_periodic(bc, ax, U.flag_mode(ax, len(terms), scheme == "explicit", sum(g.dims)))
                     phi = pf.CellVariable(g.mesh, U.generic_array(g.dims, tag=7, signed=True), bc)
+                    if scheme == "implicit" and "T" not in terms and dt == 1.0:
+                        # the initial field is given WITH ghost cells, which hold NaN placeholders: an implicit step built from
+                        # matrix terms and the transient term uses the interior of the old field only
+                        full0 = np.full(g.fshape, np.nan)
+                        full0[tuple(slice(1, -1) for _ in range(g.d))] = U.generic_array(g.dims, tag=7, signed=True)
+                        phi = pf.CellVariable(g.mesh, full0, bc)
                     I0 = [_integral(phi, V, mn == "cellvolume") for mn, V in ms]
                     A0 = [float(np.sum(V * np.abs(phi.value))) for _, V in ms]
                     kappa = 1.0
